@@ -228,6 +228,11 @@ func (st *State) havocLoop(f *Frame, body map[*ssa.BasicBlock]bool, ms *modSet) 
 						if fn == f.fn {
 							if c, ok := f.cells[al]; ok {
 								st.cellVals[c] = st.freshValue("hv_"+c.Name, c.T)
+								if c.Name == "rangeindex" {
+									// the hidden index of a range-over-slice loop starts at -1 and only grows
+									st.assume(app("bvsge", st.cellVals[c].Term, bvInt(-1, 64)))
+									st.assume(app("bvsle", st.cellVals[c].Term, bvInt(1<<40, 64)))
+								}
 							}
 						}
 						continue
@@ -525,6 +530,24 @@ func (st *State) step(f *Frame, ins ssa.Instruction) []*State {
 			binds = append(binds, st.eval(b))
 		}
 		f.regs[x] = Value{T: x.Type(), S: SRef, Fn: x.Fn.(*ssa.Function), Bind: binds}
+		if cc := st.eng.fnContract[x.Fn.(*ssa.Function)]; cc != nil && len(cc.Captures) > 0 {
+			// creation-time obligations on the captured variables
+			cfn := x.Fn.(*ssa.Function)
+			env := &specEnv{st: st, vars: map[string]Value{}, heap: st.heap, old: st.heap, topOld: st.allocTop}
+			for i, fv := range cfn.FreeVars {
+				if i < len(binds) && binds[i].Loc != nil {
+					env.vars[fv.Name()] = st.readLoc(binds[i].Loc)
+				}
+			}
+			env.oldVars = env.vars
+			if f.fn.Pkg != nil {
+				env.pkg = f.fn.Pkg.Pkg
+			}
+			for i, cp := range cc.Captures {
+				t := st.evalBool(cp.Expr, env, cp)
+				st.oblige("pre", fmt.Sprintf("captures:%s:%s", strings.TrimPrefix(cfn.Name(), f.fn.Name()), clauseLabel(cp, i)), t, cp.Src+"  [closure created at "+st.pos(x)+"]")
+			}
+		}
 	case *ssa.MakeInterface:
 		f.regs[x] = st.makeInterface(st.eval(x.X), x.X.Type(), x.Type())
 	case *ssa.ChangeInterface:
@@ -639,8 +662,11 @@ func (st *State) unop(f *Frame, x *ssa.UnOp) Value {
 			name := "gconst_" + mangleType(types.NewPointer(g.Type())) + "_" + g.Pkg.Pkg.Name() + "_" + g.Name()
 			st.declareOnce(name, s)
 			r := Value{T: T, S: s, Term: name}
-			if s == SIface && (strings.HasPrefix(g.Name(), "Err") || strings.HasPrefix(g.Name(), "err")) {
+			if s == SIface && (strings.HasPrefix(g.Name(), "Err") || strings.HasPrefix(g.Name(), "err") || st.eng.nonNilGlobal[g]) {
 				st.assume(not(eq(app("i_tag", name), "0")))
+			}
+			if s == SRef && st.eng.nonNilGlobal[g] {
+				st.assume(not(eq(name, nilRef)))
 			}
 			st.assumeWF(r)
 			return r
